@@ -157,6 +157,8 @@ def layout_isa(draw, address_sizes=(8, 12, 16, 16, 16, 24, 32), zones=False, red
         'addr': {'operand_values': {'abs': {'type': 'numeric', 'argument': {'size': abytes, 'byte_align': draw(st.booleans())}}}},
         'rel': {'operand_values': {'rel': {'type': 'relative_address',
                                            'argument': {'size': 8, 'byte_align': True, 'min': -128, 'max': 127}}}},
+        'relb': {'operand_values': {'rel': {'type': 'relative_address', 'use_curly_braces': True,
+                                            'argument': {'size': 8, 'byte_align': True, 'min': -128, 'max': 127}}}},
         'regs': {'operand_values': {
             'r_a': {'type': 'register', 'register': 'a', 'bytecode': {'value': 0, 'size': 2}},
             'r_x': {'type': 'register', 'register': 'x', 'bytecode': {'value': 1, 'size': 2}},
@@ -197,6 +199,8 @@ def layout_isa(draw, address_sizes=(8, 12, 16, 16, 16, 24, 32), zones=False, red
                'operands': {'count': 1, 'operand_sets': {'list': ['rel']}}},
         'mov': {'bytecode': {'value': draw(st.integers(0, 15)), 'size': 4},
                 'operands': {'count': 2, 'operand_sets': {'list': ['regs', 'regs']}}},
+        'brb': {'bytecode': {'value': draw(st.integers(0, 255)), 'size': 8},
+                'operands': {'count': 1, 'operand_sets': {'list': ['relb']}}},
     }
     return cfg
 
@@ -209,6 +213,7 @@ def window_of(isa: R.Isa):
     return lo, min(ghi, lo + 4095)
 
 
+SYMBOL_NAMES = ['DEBUG', 'LEVEL', 'asm', 'inc1', 'inc2', 'part1', 'main']
 # names that differ only in letter case are different names
 GLOBAL_LABELS = ['start', 'loop', 'done', 'tbl', 'msg', 'vec', 'isr', 'amov', 'mov1', 'xa', 'hl2', 'jmp2', 'LOOP', 'Start', 'TBL']
 FILE_LABELS = ['_start', '_loop', '_tmp', '_tbl', '_LOOP']
@@ -324,6 +329,8 @@ class Builder:
                       if ln['kind'] == 'label' and not ln['item']['name'].startswith(('.', '_'))
                       and ln['zone'] == self.zone() and 0 <= self.cursor() - ln['addr'] <= 100]
             if refs and recent and self.dead is None:
+                if d(st.integers(0, 2)) == 0:
+                    return {'t': 'instr', 'mn': 'brb', 'ops': [{'k': 'braced', 'e': ['lab', d(st.sampled_from(recent))]}]}
                 return {'t': 'instr', 'mn': 'br', 'ops': [{'k': 'expr', 'e': ['lab', d(st.sampled_from(recent))]}]}
             kind = 'nop'
         if kind == 'ldx':
@@ -399,7 +406,7 @@ def general_program(draw, cfg, max_steps=30, extra=(), disable=()):
         room = b.room()
         choice = d(st.sampled_from(['label', 'label', 'instr', 'instr', 'instr', 'probe', 'probe', 'fill', 'zerountil',
                                     'org', 'align', 'memzone', 'orgzone', 'mute', 'excluded', 'const', 'local', 'flabel',
-                                    'string', 'lprobe']
+                                    'string', 'lprobe', 'symbol']
                                    + list(extra)))
         if choice in disable:
             continue
@@ -588,6 +595,15 @@ def general_program(draw, cfg, max_steps=30, extra=(), disable=()):
                 b.add({'t': 'label', 'name': sorted(b.defined)[0]})
             b.add({'t': 'endif'})
             feats.add('excluded')
+        elif choice == 'symbol':
+            # a preprocessor symbol (some are named like a word of an include file name) and a use of it
+            free = [n for n in SYMBOL_NAMES if n not in b.lay.symbols]
+            if free and room >= 4 and not b.dead:
+                n = d(st.sampled_from(free))
+                b.add({'t': 'define', 'name': n, 'value': str(d(st.integers(0, 200)))})
+                if d(st.booleans()):
+                    b.add({'t': 'data', 'd': '.byte', 'vals': [['lab', n]]})
+                feats.add('symbol')
         elif choice == 'const':
             free = [n for n in isagen.CONSTS if n not in consts]
             if free:
